@@ -22,7 +22,8 @@ def run(cmd, **kw):
 
 def main():
     prop, letter, src = sys.argv[1], sys.argv[2], sys.argv[3]
-    sid = "S-%s-%s" % (prop, letter)
+    prefix = sys.argv[4] if len(sys.argv) > 4 else "S"
+    sid = "%s-%s-%s" % (prefix, prop, letter)
     patch = os.path.join(src, "patch.diff")
     demo = os.path.join(src, "demo.cpp")
     notes = open(os.path.join(src, "notes.md")).read() if os.path.exists(os.path.join(src, "notes.md")) else ""
@@ -36,7 +37,9 @@ def main():
         if r.returncode:
             print(sid, "configure failed"); return 2
         tsan = "thread" in open(demo).read() and prop == "C20"
-        flags = ["clang++", "-std=c++20", "-g", "-O1", "-I", os.path.join(d, "include"), "-I", os.path.join(b, "include"), demo, "-lpthread"]
+        first = open(demo).readline()
+        extra = first.split("FLAGS:", 1)[1].split() if "FLAGS:" in first else []
+        flags = ["clang++", "-std=c++20", "-g", "-O1"] + extra + ["-I", os.path.join(d, "include"), "-I", os.path.join(b, "include"), demo, "-lpthread"]
 
         def demo_run(tag):
             exe = os.path.join(d, "demo_" + tag)
@@ -88,7 +91,8 @@ def main():
         open(os.path.join(dest, "notes.md"), "w").write(notes)
         meta = {
             "id": sid, "property": prop, "files": files,
-            "origin": "independent sub-agent given only the property text and a scratch worktree of /repo",
+            "origin": "independent sub-agent given only the property text and a scratch worktree of /repo" + (" (round 2: asked for changes that exhaustive small-domain enumeration, reference-model random testing and sanitizers would not find easily)" if prefix == "S2" else ""),
+            "demo_flags": extra,
             "needs": "see notes.md (the author's description of the trigger)",
             "confirmed": ran, "demo_output_with_patch": out1[-400:],
             "confirmed_at": time.strftime("%Y-%m-%d %H:%M:%S"),
